@@ -155,6 +155,7 @@ TypeOfE(e) ==
     [] e.k = "mem" -> (LET b == TypeOfE(e.e)  fd == FieldOf(b.t.id, e.f) IN TB(Decay(fd.t), fd.bw))
     [] e.k = "addr" -> (TB([k |-> "p", t |-> TypeOfLV(e.l)], 0))
     [] e.k = "cast" -> (TB(e.t, 0))
+    [] e.k = "sizeof" -> (TB(IntT("ulong"), 0))
     [] e.k = "un" -> (IF e.op = "!" THEN TB(TInt, 0) ELSE TB(PromTB(TypeOfE(e.e)), 0))
     [] e.k = "cond" -> (LET a == TypeOfE(e.a)  b == TypeOfE(e.b) IN
                         IF IsInt(a.t) /\ IsInt(b.t) THEN TB(IntT(UAC(PromTB(a).n, PromTB(b).n)), 0) ELSE TB(a.t, 0))
@@ -173,6 +174,8 @@ TypeOfLV(e) ==
     [] e.k = "mem" -> (FieldOf(TypeOfLV(e.e).id, e.f).t)
     [] OTHER -> (TInt)
 
+RECURSIVE SizeOfT(_)
+SizeOfT(t) == CASE t.k = "i" -> Size(t.n) [] t.k = "p" -> 8 [] t.k = "a" -> (IF SizeOfT(t.t) < 0 THEN -1 ELSE t.n * SizeOfT(t.t)) [] OTHER -> -1
 RECURSIVE Eval(_), LVal(_)
 (* load through an lvalue, with array-to-pointer decay *)
 LoadLV(lv) ==
@@ -278,6 +281,7 @@ Eval(e) ==
                 IF e.op = "-" THEN RV(IntT("long"), IF a >= b THEN W(a - b) ELSE Neg(W(b - a)))
                 ELSE RV(TInt, BoolW(CASE e.op = "<" -> a < b [] e.op = "<=" -> a <= b [] e.op = ">" -> a > b [] e.op = ">=" -> a >= b))
          ELSE Bad("operand-types"))
+    [] e.k = "sizeof" -> (LET t == TypeOfLV(e.l) IN IF SizeOfT(t) < 0 THEN Bad("sizeof-struct") ELSE RV(IntT("ulong"), W(SizeOfT(t))))
     [] OTHER -> ( Bad("unknown-expression " \o e.k))
 
 (* ---------------- stores ---------------- *)
@@ -403,6 +407,16 @@ SDecl ==
             /\ env' = (S.n :> [obj |-> o, t |-> S.t]) @@ env
             /\ ck' = Pop /\ CTick /\ UNCHANGED <<cpid, genv, cout, cstatus, cret, depth>>
 
+SVla ==        \* T name[len]; with a run-time length (6.7.6.2p5: the length shall be greater than zero)
+  /\ IsStmt("vla")
+  /\ LET r == Eval(S.len) IN
+       IF ~r.ok THEN Fail(r.why)
+       ELSE IF ~IsInt(r.t) \/ ~FitsNat31(PromV(r)) \/ Lo31(PromV(r)) = 0 \/ Lo31(PromV(r)) > 64 THEN Fail("vla-length")
+       ELSE LET t == [k |-> "a", t |-> S.t, n |-> Lo31(PromV(r))]  o == NewObj IN
+            /\ mem' = (o :> [val |-> ZeroOf(t), live |-> TRUE]) @@ mem
+            /\ env' = (S.n :> [obj |-> o, t |-> t]) @@ env
+            /\ ck' = Pop /\ CTick /\ UNCHANGED <<cpid, genv, cout, cstatus, cret, depth>>
+
 SBlock ==
   /\ IsStmt("block")
   /\ ck' = Push(Pop, [k |-> "seq", ss |-> S.ss, i |-> 1, env0 |-> env])
@@ -504,7 +518,8 @@ SReturn ==
          /\ cstatus' = "exit" /\ cret' = Conv("int", PromV(r)) /\ ck' = <<>>
          /\ UNCHANGED <<cpid, genv, env, mem, cout, cfuel, depth>>
        ELSE LET fr == ck[j]
-                rv == RV(fr.rt, StoreVal(LV(0, <<>>, fr.rt, 0), r).v) IN
+                sv == StoreVal(LV(0, <<>>, fr.rt, 0), r)
+                rv == IF IsInt(fr.rt) THEN RV(fr.rt, sv.v) ELSE RV(fr.rt, sv) IN
          IF ~fr.hasl THEN ck' = SubSeq(ck, 1, j - 1) /\ env' = fr.env0 /\ depth' = depth - 1 /\ CTick /\ UNCHANGED <<cpid, genv, mem, cout, cstatus, cret>>
          ELSE \* the assignment of the result happens in the caller's environment
               /\ ck' = Push(SubSeq(ck, 1, j - 1), [k |-> "retasg", l |-> fr.l, t |-> rv.t, v |-> rv.v])
@@ -533,7 +548,7 @@ SMain ==        \* after the globals: enter main's body with the global environm
   /\ genv' = env
   /\ CTick /\ UNCHANGED <<cpid, env, mem, cout, cstatus, cret, depth>>
 
-CNext == SExpr \/ SAsg \/ SObs \/ SDecl \/ SBlock \/ SSeq \/ SIf \/ SLoop \/ SLoopTest \/ SNop \/ SCaseLabel \/ SBreak \/ SContinue
+CNext == SExpr \/ SAsg \/ SObs \/ SDecl \/ SVla \/ SBlock \/ SSeq \/ SIf \/ SLoop \/ SLoopTest \/ SNop \/ SCaseLabel \/ SBreak \/ SContinue
          \/ SSwitch \/ SSwitchEnd \/ SCall \/ SCallEnd \/ SReturn \/ SRetAsg \/ SEnd \/ COutOfFuel \/ SMain
 
 CSpec == CInit /\ [][CNext]_cvars
